@@ -321,6 +321,7 @@ func (s *indexKVStore) getOrCreateValue(bucketID uint32, key []byte,
 	if !ok {
 		// get from kv store(persist)
 		snapshot := s.getSnapshot()
+		verifhook.Yield("index.kvstore.afterSnapshot")
 		reader := v1.NewIndexKVReader(snapshot)
 		bucket, err = reader.GetBucket(bucketID)
 		if err != nil {
